@@ -3,13 +3,17 @@
     backward simulation of the nodes collector as [Proofs/RoundTrip.v], by
     induction on document size, generalised over the FOLLOW STRING (what is
     written after the items, up to the end of the input).  Fuel is tracked in
-    sum form (eight units per written character), so the result is about
-    [parse_top] with its own fuel [8 * |s| + 40]. *)
+    sum form ([U] units per written character, for any [U >= 8] that exceeds the
+    number of argument slots of every specification of the context by four: an
+    absent optional argument costs one unit and writes nothing), so the result is
+    about [parse_top] with its own fuel [parse_fuel s cx = |s| * fuel_unit cx +
+    fuel_base cx], [fuel_unit cx = 8 + max_args cx]. *)
 From Coq Require Import NArith List Bool Arith Lia.
 From PLV Require Import Base.PyStr Tok.PState Tok.Tokenizer Parse.Nodes Parse.Parser Parse.ParseWire
                         Proofs.PyStrFacts Proofs.ParserMono Proofs.ParserErrorsBase
                         Doc.DocGrammar Doc.DocGrammar2 Proofs.RoundTripTok Proofs.RoundTripRules Proofs.RoundTrip
                         Proofs.RoundTrip2Tok Proofs.RoundTrip2Rules.
+From PLV Require Proofs.ParserTermDefs.
 Import ListNotations.
 
 (** * Unfolding the nested definitions *)
@@ -54,7 +58,7 @@ Lemma ok_item_mac2 cx ps ex ws name post args fol sp l :
   get_macro_spec cx name = Some sp -> sp_args sp = APStd l ->
   ok_item2 cx ps ex (Mac2 ws name post args) fol =
   ws_ok ws && ws_ok post && name_ok name post
-  && (ok_args2 cx ps args l fol && slots_ok (nabs args) (1 + length name)
+  && (ok_args2 cx ps args l fol
       && mac_follow_ok2 name post (unparse_items2 args ++ fol)).
 Proof. intros A B. cbn [ok_item2]. rewrite A, B. reflexivity. Qed.
 
@@ -75,7 +79,6 @@ Lemma ok_item_env2 cx ps ex ws bws name args b tr ews fol sp l :
   ws_ok ws && forallb is_space bws && forallb is_space ews && ws_ok tr
   && envname_ok name && f_en_envs (ps_f ps)
   && (ok_args2 cx ps args l (unparse_items2 b ++ tr ++ end_str ews name ++ fol)
-      && slots_ok (nabs args) (length (begin_str bws name))
       && ok_items2 cx (env_body_state ps sp) [] b (tr ++ end_str ews name ++ fol)).
 Proof. intros A B. cbn [ok_item2]. rewrite A, B. reflexivity. Qed.
 
@@ -94,7 +97,7 @@ Lemma ok_item_spc2 cx ps ex ws chars args fol sp l :
      | Some sc => str_eqb sc chars
      | None => false
      end
-  && (ok_args2 cx ps args l fol && slots_ok (nabs args) (length chars)).
+  && ok_args2 cx ps args l fol.
 Proof. intros A B. cbn [ok_item2]. rewrite A, B. reflexivity. Qed.
 
 Lemma node_of_brk2 cx ps p0 ws oc cc b tr :
@@ -227,19 +230,54 @@ Proof.
   discriminate.
 Qed.
 
+(** linear arithmetic with products [U * x], given [U8 : 8 <= U]: [8 * y <= U * y] for
+    every summand [y] of every [x] in sight ([lia] distributes the products over the sums) *)
+Ltac umono_term U U8 x :=
+  lazymatch x with
+  | ?a + ?b => umono_term U U8 a; umono_term U U8 b
+  | S ?a => umono_term U U8 a
+  | O => idtac
+  | _ =>
+      lazymatch goal with
+      | _ : 8 * x <= U * x |- _ => idtac
+      | _ => pose proof (Nat.mul_le_mono_r 8 U x U8)
+      end
+  end.
+Ltac umono U U8 :=
+  repeat match goal with
+  | |- context [U * ?x] => progress (umono_term U U8 x)
+  | _ : context [U * ?x] |- _ => progress (umono_term U U8 x)
+  end.
+Ltac ulia_gen U U8 := first [lia | umono U U8; lia].
+
+(** the number of optional arguments that are not written: each costs one unit of
+    fuel and no character *)
+Definition nabs (l : list item2) : nat :=
+  length (filter (fun a => match a with Abs2 => true | _ => false end) l).
+Lemma nabs_le l : nabs l <= length l.
+Proof. unfold nabs. induction l as [|a l IH]; [apply le_n|]. cbn [filter length]. destruct a; cbn [length]; lia. Qed.
+
 Section Sim.
   Variable s : str.
   Variable cx : context.
+  (** [U]: the units of fuel per written character; at least 8, and at least four more
+      than the number of argument slots of any specification (an absent optional
+      argument costs one unit and writes nothing) *)
+  Variable U : nat.
+  Hypothesis U8 : 8 <= U.
+  Hypothesis UM : max_args cx + 4 <= U.
   Notation R := (run s false cx).
 
+  Ltac ulia := ulia_gen U U8.
+
   Lemma lift n n' t r : R n t = r -> r <> OutOfFuel -> n <= n' -> R n' t = r.
-  Proof. intros H NR L. eapply run_mono; eassumption. Qed.
+  Proof using Type. clear UM U8 U. intros H NR L. eapply run_mono; eassumption. Qed.
 
   (** ** text *)
   Lemma text_char_tok ex cps ps pos ws c rest : Frame cx ex cps ps ->
     ws_ok ws = true -> char_ok cx ex c rest = true -> skipn pos s = ws ++ c :: rest ->
     impl_peek cps s pos = TokOk (mk TkChar [c] (pos + length ws) (S (pos + length ws)) ws []).
-  Proof.
+  Proof using Type. clear UM U8 U.
     intros F W TC SK. pose proof F as [SD _]. pose proof (std_view_of cx ps SD) as V.
     destruct (char_ok_facts cx ex c rest TC) as (PS & I2 & TS).
     destruct (plain_start_facts c PS) as (SP & _).
@@ -252,7 +290,7 @@ Section Sim.
     text_ok cx ex cs fol = true -> skipn pos s = cs ++ fol ->
     R k (TCollect cps o (push_pending st (pre ++ cs) q) (pos + length cs)) = r ->
     R (k + length cs) (TCollect cps o (push_pending st pre q) pos) = r.
-  Proof.
+  Proof using Type. clear UM U8 U.
     intros F OK NR.
     induction cs as [|c cs IH]; intros st q pre pos fol IN SK H.
     - cbn [length] in *. rewrite app_nil_r, Nat.add_0_r in H. rewrite Nat.add_0_r. exact H.
@@ -271,19 +309,19 @@ Section Sim.
   Lemma text_sim2 ex cps ps o r k st pos ws c cs fol : Frame cx ex cps ps -> opts_okF cps ps o -> r <> OutOfFuel ->
     ws_ok ws = true -> text_ok cx ex (c :: cs) fol = true -> skipn pos s = ws ++ (c :: cs) ++ fol ->
     R k (TCollect cps o (push_pending st (ws ++ c :: cs) pos) (pos + length (ws ++ c :: cs))) = r ->
-    R (k + 8 * length (ws ++ c :: cs)) (TCollect cps o st pos) = r.
+    R (k + U * length (ws ++ c :: cs)) (TCollect cps o st pos) = r.
   Proof.
     intros F OK NR W IN SK H.
     cbn [text_ok] in IN. apply andb_true_iff in IN. destruct IN as [I1 I2].
     pose proof (text_char_tok ex cps ps pos ws c (cs ++ fol) F W I1 SK) as T.
-    apply (lift (S (k + length cs))); [|exact NR|rewrite app_length; cbn [length]; lia].
+    apply (lift (S (k + length cs))); [|exact NR|rewrite app_length; cbn [length]; ulia].
     apply (rule_charF s cx _ cps ps o _ pos ws c r OK T).
     apply (chars_sim2 ex cps ps o r k F OK NR cs st pos (ws ++ [c]) (S (pos + length ws)) fol I2).
     - cbn [app] in SK. change (c :: cs ++ fol) with ([c] ++ cs ++ fol) in SK. rewrite app_assoc in SK.
       apply (skipn_shift s (ws ++ [c]) (cs ++ fol)) in SK. rewrite app_length in SK. cbn [length] in SK.
-      replace (S (pos + length ws)) with (pos + (length ws + 1)) by lia. exact SK.
+      replace (S (pos + length ws)) with (pos + (length ws + 1)) by ulia. exact SK.
     - rewrite <- app_assoc. cbn [app]. rewrite app_length in H. cbn [length] in H.
-      replace (S (pos + length ws) + length cs) with (pos + (length ws + S (length cs))) by lia. exact H.
+      replace (S (pos + length ws) + length cs) with (pos + (length ws + S (length cs))) by ulia. exact H.
   Qed.
 
   (** ** the induction hypothesis of the simulation, as a parameter *)
@@ -293,14 +331,14 @@ Section Sim.
     ok_items2 cx ps ex l fol = true ->
     skipn pos s = unparse_items2 l ++ fol ->
     R k (TCollect cps o (fst (absorb2 cx ps pos st l)) (pos + length (unparse_items2 l))) = r ->
-    R (k + 8 * length (unparse_items2 l)) (TCollect cps o st pos) = r.
+    R (k + U * length (unparse_items2 l)) (TCollect cps o st pos) = r.
 
   (** ** a braced group, from its opening brace *)
   Lemma grp_run2 n : SimN2 n -> forall ps p0 ws b tr rest,
     Std cx ps -> lsize2 b <= n ->
     ws_ok tr = true -> ok_items2 cx ps [] b (tr ++ 125%N :: rest) = true ->
     skipn p0 s = 123%N :: unparse_items2 b ++ tr ++ 125%N :: rest ->
-    R (3 + 8 * length (unparse_items2 b)) (TGroup ps (GDStr [123%N]) false false p0)
+    R (3 + U * length (unparse_items2 b)) (TGroup ps (GDStr [123%N]) false false p0)
     = Ok (ONode (node_of2 cx ps p0 (Grp2 ws b tr))) (p0 + 1 + length (unparse_items2 b) + length tr + 1).
   Proof.
     intros IH ps p0 ws b tr rest SD SZ W OKB SK. pose proof (std_view_of cx ps SD) as V.
@@ -315,7 +353,7 @@ Section Sim.
     set (A := absorb2 cx ps (S p0) cs_empty b).
     pose proof (rule_stop s cx 0 ps (grp_opts ps) (fst A) pb _ (opts_ok_grp ps) T2 eq_refl) as S1.
     cbn [mk tpre tpos] in S1. rewrite Nat.add_sub in S1.
-    assert (S2 : R (1 + 8 * length (unparse_items2 b)) (TCollect ps (grp_opts ps) cs_empty (S p0))
+    assert (S2 : R (1 + U * length (unparse_items2 b)) (TCollect ps (grp_opts ps) cs_empty (S p0))
                  = Ok (OColl (close_state ps (fst A) tr pb)
                              (Some (mk TkBraceClose [125%N] (pb + length tr) (S (pb + length tr)) tr [])) false false)
                       (pb + length tr)).
@@ -325,18 +363,18 @@ Section Sim.
     pose proof (rule_general_stop s cx _ ps (grp_opts ps) (S p0) _ _ _ eq_refl eq_refl eq_refl S2) as S3.
     cbn [mk tend] in S3.
     pose proof (rule_tgroup s cx _ ps p0 _ _ (sv_gdelims _ _ V) T1 S3) as S4.
-    replace (3 + 8 * length (unparse_items2 b)) with (S (S (1 + 8 * length (unparse_items2 b)))) by lia.
+    replace (3 + U * length (unparse_items2 b)) with (S (S (1 + U * length (unparse_items2 b)))) by ulia.
     rewrite S4, node_of_grp2. cbn zeta. fold A.
     assert (PA : snd A = pb) by (unfold A; rewrite absorb_pos2; reflexivity). rewrite PA.
-    replace (pb + length tr + 1) with (S (pb + length tr)) by lia.
-    replace (p0 + 1 + length (unparse_items2 b) + length tr + 1) with (S (pb + length tr)) by (unfold pb; lia).
+    replace (pb + length tr + 1) with (S (pb + length tr)) by ulia.
+    replace (p0 + 1 + length (unparse_items2 b) + length tr + 1) with (S (pb + length tr)) by (unfold pb; ulia).
     reflexivity.
   Qed.
 
   (** ** a delimited argument [[ … ]], from its leading whitespace *)
   Lemma opts_okF_brk ps oc cc : Std cx ps -> delim_ok oc cc = true ->
     opts_okF (brk_state ps oc cc) ps (brk_opts ps oc cc).
-  Proof.
+  Proof using Type. clear UM U8 U.
     intros SD D. destruct (delim_ok_facts oc cc D) as (PO & _).
     destruct (plain_start_facts oc PO) as (_ & _ & _ & _ & O123 & _).
     repeat split; [|apply (brk_mode cx ps oc cc SD D)].
@@ -351,7 +389,7 @@ Section Sim.
     ws_ok aws = true -> (aps || is_nil aws) = true -> ws_ok tr = true ->
     ok_items2 cx ps [oc; cc] b (tr ++ cc :: rest) = true ->
     skipn p0 s = aws ++ oc :: unparse_items2 b ++ tr ++ cc :: rest ->
-    R (3 + 8 * length (unparse_items2 b)) (TGroup ps (GDPair [oc] [cc]) opt aps p0)
+    R (3 + U * length (unparse_items2 b)) (TGroup ps (GDPair [oc] [cc]) opt aps p0)
     = Ok (ONode (node_of2 cx ps (p0 + length aws) (Brk2 aws oc cc b tr)))
          (p0 + length aws + 1 + length (unparse_items2 b) + length tr + 1).
   Proof.
@@ -375,7 +413,7 @@ Section Sim.
     { cbn. rewrite N.eqb_refl. reflexivity. }
     pose proof (rule_stopF s cx 0 gps ps (brk_opts ps oc cc) (fst A) pb _ OKF T2 SM) as S1.
     cbn [mk tpre tpos] in S1. rewrite Nat.add_sub in S1.
-    assert (S2 : R (1 + 8 * length (unparse_items2 b)) (TCollect gps (brk_opts ps oc cc) cs_empty (S q0))
+    assert (S2 : R (1 + U * length (unparse_items2 b)) (TCollect gps (brk_opts ps oc cc) cs_empty (S q0))
                  = Ok (OColl (close_state ps (fst A) tr pb)
                              (Some (mk TkBraceClose [cc] (pb + length tr) (S (pb + length tr)) tr [])) false false)
                       (pb + length tr)).
@@ -384,11 +422,11 @@ Section Sim.
     pose proof (rule_general_stop s cx _ gps (brk_opts ps oc cc) (S q0) _ _ _ eq_refl eq_refl eq_refl S2) as S3.
     cbn [mk tend] in S3.
     pose proof (rule_tgroup_pair s cx _ ps oc cc opt aps p0 aws _ _ T1 AP S3) as S4.
-    replace (3 + 8 * length (unparse_items2 b)) with (S (S (1 + 8 * length (unparse_items2 b)))) by lia.
+    replace (3 + U * length (unparse_items2 b)) with (S (S (1 + U * length (unparse_items2 b)))) by ulia.
     fold q0 in S4. rewrite S4, node_of_brk2. cbn zeta. fold A. rewrite (brk_mode cx ps oc cc SD D).
     assert (PA : snd A = pb) by (unfold A; rewrite absorb_pos2; reflexivity). rewrite PA.
-    replace (pb + length tr + 1) with (S (pb + length tr)) by lia.
-    replace (q0 + 1 + length (unparse_items2 b) + length tr + 1) with (S (pb + length tr)) by (unfold pb; lia).
+    replace (pb + length tr + 1) with (S (pb + length tr)) by ulia.
+    replace (q0 + 1 + length (unparse_items2 b) + length tr + 1) with (S (pb + length tr)) by (unfold pb; ulia).
     reflexivity.
   Qed.
 
@@ -399,7 +437,7 @@ Section Sim.
     ok_items2 cx (ps_enter_math ps (Some (m_open k))) [] b (tr ++ m_close k ++ rest) = true ->
     (k = MDollar -> hd_not (fun c => N.eqb c 36) (unparse_items2 b ++ tr ++ m_close k ++ rest)) ->
     skipn p0 s = m_open k ++ unparse_items2 b ++ tr ++ m_close k ++ rest ->
-    R (3 + 8 * length (unparse_items2 b)) (TMath ps (m_open k) p0)
+    R (3 + U * length (unparse_items2 b)) (TMath ps (m_open k) p0)
     = Ok (ONode (node_of2 cx ps p0 (Math2 ws k b tr)))
          (p0 + length (m_open k) + length (unparse_items2 b) + length tr + length (m_close k)).
   Proof.
@@ -437,7 +475,7 @@ Section Sim.
       by (destruct k; reflexivity).
     pose proof (rule_stop s cx 0 mps (math_opts k) (fst A) pb _ (opts_ok_math mps k M') T2 SM) as S1.
     cbn [mk tpre tpos] in S1. rewrite Nat.add_sub in S1.
-    assert (S2 : R (1 + 8 * length (unparse_items2 b)) (TCollect mps (math_opts k) cs_empty st0)
+    assert (S2 : R (1 + U * length (unparse_items2 b)) (TCollect mps (math_opts k) cs_empty st0)
                  = Ok (OColl (close_state mps (fst A) tr pb)
                              (Some (mk (m_tok k) (m_close k) (pb + length tr) (pb + length tr + length (m_close k)) tr []))
                              false false) (pb + length tr)).
@@ -447,7 +485,7 @@ Section Sim.
     pose proof (rule_general_stop s cx _ mps (math_opts k) st0 _ _ _ eq_refl eq_refl eq_refl S2) as S3.
     cbn [mk tend] in S3.
     pose proof (rule_tmath s cx _ ps k p0 _ _ _ T1 E S3) as S4.
-    replace (3 + 8 * length (unparse_items2 b)) with (S (S (1 + 8 * length (unparse_items2 b)))) by lia.
+    replace (3 + U * length (unparse_items2 b)) with (S (S (1 + U * length (unparse_items2 b)))) by ulia.
     rewrite S4, node_of_math2. cbn zeta. fold mps. fold st0. fold A.
     assert (PA : snd A = pb) by (unfold A; rewrite absorb_pos2; reflexivity). rewrite PA.
     reflexivity.
@@ -455,45 +493,45 @@ Section Sim.
 
   (** ** lengths *)
   Lemma ilen_grp2 ws b tr : ilen2 (Grp2 ws b tr) = length ws + 1 + length (unparse_items2 b) + length tr + 1.
-  Proof.
+  Proof using Type. clear UM U8 U.
     unfold ilen2, unparse_items2. cbn [unparse_item2]. rewrite app_length. cbn [length].
     rewrite !app_length. cbn [length]. lia.
   Qed.
   Lemma ilen_brk2 ws oc cc b tr : ilen2 (Brk2 ws oc cc b tr) = length ws + 1 + length (unparse_items2 b) + length tr + 1.
-  Proof.
+  Proof using Type. clear UM U8 U.
     unfold ilen2, unparse_items2. cbn [unparse_item2]. rewrite app_length. cbn [length].
     rewrite !app_length. cbn [length]. lia.
   Qed.
   Lemma ilen_math2 ws k b tr :
     ilen2 (Math2 ws k b tr) = length ws + length (m_open k) + length (unparse_items2 b) + length tr + length (m_close k).
-  Proof. unfold ilen2, unparse_items2. cbn [unparse_item2]. rewrite !app_length. lia. Qed.
+  Proof using Type. clear UM U8 U. unfold ilen2, unparse_items2. cbn [unparse_item2]. rewrite !app_length. lia. Qed.
   Lemma ilen_mac2 ws name post args :
     ilen2 (Mac2 ws name post args) = length ws + 1 + length name + length post + length (unparse_items2 args).
-  Proof.
+  Proof using Type. clear UM U8 U.
     unfold ilen2, unparse_items2. cbn [unparse_item2]. rewrite app_length. cbn [length]. rewrite !app_length. lia.
   Qed.
   Lemma ilen_spc2 ws chars args :
     ilen2 (Spc2 ws chars args) = length ws + length chars + length (unparse_items2 args).
-  Proof. unfold ilen2, unparse_items2. cbn [unparse_item2]. rewrite !app_length. lia. Qed.
+  Proof using Type. clear UM U8 U. unfold ilen2, unparse_items2. cbn [unparse_item2]. rewrite !app_length. lia. Qed.
   Lemma ilen_vrb2 ws name post dc text :
     ilen2 (Vrb2 ws name post dc text) = length ws + 1 + length name + length post + 1 + length text + 1.
-  Proof.
+  Proof using Type. clear UM U8 U.
     unfold ilen2. cbn [unparse_item2]. rewrite app_length. cbn [length]. rewrite !app_length. cbn [length].
     rewrite app_length. cbn [length]. lia.
   Qed.
   Lemma ilen_venv2 ws bws name oarg text :
     ilen2 (VEnv2 ws bws name oarg text)
     = length ws + length (begin_str bws name) + length (unparse_items2 oarg) + length text + length (end_str [] name).
-  Proof. unfold ilen2, unparse_items2. cbn [unparse_item2]. rewrite !app_length. lia. Qed.
+  Proof using Type. clear UM U8 U. unfold ilen2, unparse_items2. cbn [unparse_item2]. rewrite !app_length. lia. Qed.
   Lemma ilen_env2 ws bws name args b tr ews :
     ilen2 (Env2 ws bws name args b tr ews)
     = length ws + length (begin_str bws name) + length (unparse_items2 args) + length (unparse_items2 b)
       + length tr + length (end_str ews name).
-  Proof. unfold ilen2, unparse_items2. cbn [unparse_item2]. rewrite !app_length. lia. Qed.
+  Proof using Type. clear UM U8 U. unfold ilen2, unparse_items2. cbn [unparse_item2]. rewrite !app_length. lia. Qed.
   Lemma len_end_str ews name : length (end_str ews name) = 1 + 3 + (length ews + 1 + length name + 1).
-  Proof. unfold end_str. cbn [length kw_end app]. rewrite app_length. cbn [length]. rewrite app_length. cbn [length]. lia. Qed.
+  Proof using Type. clear UM U8 U. unfold end_str. cbn [length kw_end app]. rewrite app_length. cbn [length]. rewrite app_length. cbn [length]. lia. Qed.
   Lemma len_begin_str bws name : length (begin_str bws name) = 1 + 5 + (length bws + 1 + length name + 1).
-  Proof. unfold begin_str. cbn [length kw_begin app]. rewrite app_length. cbn [length]. rewrite app_length. cbn [length]. lia. Qed.
+  Proof using Type. clear UM U8 U. unfold begin_str. cbn [length kw_begin app]. rewrite app_length. cbn [length]. rewrite app_length. cbn [length]. lia. Qed.
 
   (** ** the body of an environment, up to and including [\end{name}] *)
   Lemma env_body_run2 n : SimN2 n -> forall bps p b tr ews name rest,
@@ -501,7 +539,7 @@ Section Sim.
     ws_ok tr = true -> forallb is_space ews = true -> envname_ok name = true ->
     ok_items2 cx bps [] b (tr ++ end_str ews name ++ rest) = true ->
     skipn p s = unparse_items2 b ++ tr ++ end_str ews name ++ rest ->
-    R (3 + 8 * length (unparse_items2 b)) (TEnvBody bps name p)
+    R (3 + U * length (unparse_items2 b)) (TEnvBody bps name p)
     = Ok (ONode (Some (gen_nodelist p (cs_acc (close_state bps (fst (absorb2 cx bps p cs_empty b)) tr
                                                            (p + length (unparse_items2 b)))))))
          (p + length (unparse_items2 b) + length tr + length (end_str ews name)).
@@ -516,13 +554,13 @@ Section Sim.
     assert (T2 : impl_peek bps s pb = TokOk (mk TkEndEnv name (pb + length tr) pe tr [])).
     { rewrite (impl_peek_dispatch bps s pb tr 92%N _ W SKc' space_92).
       rewrite (dispatch_env cx bps V s _ tr false ews name rest (skipn_shift _ _ _ _ SKc') EN WE NM).
-      unfold pe. rewrite len_end_str. cbn [env_tok env_kw kw_end length]. f_equal. unfold mk. f_equal. lia. }
+      unfold pe. rewrite len_end_str. cbn [env_tok env_kw kw_end length]. f_equal. unfold mk. f_equal. ulia. }
     set (A := absorb2 cx bps p cs_empty b).
     assert (SM : stop_matches (g_stop (env_opts name)) (mk TkEndEnv name (pb + length tr) pe tr []) = true).
     { cbn. apply str_eqb_refl. }
     pose proof (rule_stop s cx 0 bps (env_opts name) (fst A) pb _ (opts_ok_env bps name) T2 SM) as S1.
     cbn [mk tpre tpos] in S1. rewrite Nat.add_sub in S1.
-    assert (S2 : R (1 + 8 * length (unparse_items2 b)) (TCollect bps (env_opts name) cs_empty p)
+    assert (S2 : R (1 + U * length (unparse_items2 b)) (TCollect bps (env_opts name) cs_empty p)
                  = Ok (OColl (close_state bps (fst A) tr pb)
                              (Some (mk TkEndEnv name (pb + length tr) pe tr [])) false false) (pb + length tr)).
     { apply (IH b SZ [] bps bps (env_opts name) cs_empty p (tr ++ end_str ews name ++ rest) 1 _ (frame_std cx bps SD)
@@ -531,14 +569,14 @@ Section Sim.
     pose proof (rule_general_stop s cx _ bps (env_opts name) p _ _ _ eq_refl eq_refl eq_refl S2) as S3.
     cbn [mk tend] in S3.
     pose proof (rule_tenvbody s cx _ bps name p _ _ S3) as S4.
-    replace (3 + 8 * length (unparse_items2 b)) with (S (S (1 + 8 * length (unparse_items2 b)))) by lia.
+    replace (3 + U * length (unparse_items2 b)) with (S (S (1 + U * length (unparse_items2 b)))) by ulia.
     rewrite S4. reflexivity.
   Qed.
 
   (** ** the token of a control sequence *)
   Lemma name_ok_not_env name post : name_ok name post = true ->
     str_eqb name kw_begin = false /\ str_eqb name kw_end = false.
-  Proof.
+  Proof using Type. clear UM U8 U.
     destruct name as [|c nm]; [discriminate|]. cbn [name_ok]. destruct (is_alpha c) eqn:AC.
     - intros H. apply andb_true_iff in H. destruct H as [H NE]. apply andb_true_iff in H. destruct H as [_ NB].
       apply negb_true_iff in NE. apply negb_true_iff in NB. tauto.
@@ -551,7 +589,7 @@ Section Sim.
     skipn pos s = ws ++ 92%N :: name ++ post ++ rest ->
     impl_peek q s pos
     = TokOk (mk TkMacro name (pos + length ws) (pos + length ws + 1 + length name + length post) ws post).
-  Proof.
+  Proof using Type. clear UM U8 U.
     intros SQ W Wp NM FO SK'. pose proof (std_view_of cx q SQ) as V.
     pose proof (skipn_shift _ _ _ _ SK') as SK0. set (p0 := pos + length ws) in *.
     destruct name as [|c nm]; [discriminate|]. cbn [name_ok] in NM. cbn [mac_follow_ok] in FO.
@@ -579,7 +617,7 @@ Section Sim.
     skipn pos s = ws ++ 92%N :: name ++ post ++ rest ->
     impl_peek q s pos
     = TokOk (mk TkMacro name (pos + length ws) (pos + length ws + 1 + length name + length post) ws post).
-  Proof.
+  Proof using Type. clear UM U8 U.
     intros SQ W Wp NM FO SK'. unfold mac_follow_ok2 in FO. apply orb_true_iff in FO.
     destruct FO as [FO|FO]; [apply (mac_tok q pos ws name post rest SQ W Wp NM FO SK')|].
     apply andb_true_iff in FO. destruct FO as [NP PF]. apply negb_true_iff in NP.
@@ -603,11 +641,11 @@ Section Sim.
 
   (** ** one argument *)
   Definition is_abs (a : item2) : bool := match a with Abs2 => true | _ => false end.
-  Definition arg_fuel (a : item2) : nat := if is_abs a then 2 else 8 * ilen2 a.
+  Definition arg_fuel (a : item2) : nat := if is_abs a then 2 else U * ilen2 a.
 
   Lemma peek_no_err ps pos ws c rest : Std cx ps -> ws_ok ws = true -> is_space c = false -> N.eqb c 92 = false ->
     skipn pos s = ws ++ c :: rest -> forall e, impl_peek ps s pos <> TokErr e.
-  Proof.
+  Proof using Type. clear UM U8 U.
     intros SD W SP C SK e. pose proof (std_view_of cx ps SD) as V.
     rewrite (impl_peek_dispatch ps s pos ws c rest W SK SP).
     destruct (dispatch_no_err cx ps V s (pos + length ws) ws c rest (skipn_shift _ _ _ _ SK)) as [t DT].
@@ -616,14 +654,14 @@ Section Sim.
   Qed.
 
   Lemma absent_no_err pos ch r : absent_tok pos ch r -> forall e, r <> TokErr e.
-  Proof. destruct r; cbn; [discriminate|discriminate|contradiction]. Qed.
+  Proof using Type. clear UM U8 U. destruct r; cbn; [discriminate|discriminate|contradiction]. Qed.
 
   Lemma ilen_pre2 ws text post a :
     ilen2 (Pre2 ws text post a) = length ws + 1 + length text + length post + ilen2 a.
-  Proof. unfold ilen2. cbn [unparse_item2]. rewrite app_length. cbn [length]. rewrite !app_length. lia. Qed.
+  Proof using Type. clear UM U8 U. unfold ilen2. cbn [unparse_item2]. rewrite app_length. cbn [length]. rewrite !app_length. lia. Qed.
 
   Lemma ok_expr_len sp aps a fa : ok_expr2 cx sp aps a fa = true -> 1 <= ilen2 a.
-  Proof.
+  Proof using Type. clear UM U8 U.
     destruct a as [ws cs|ws b tr|ws name post margs| | | | |ws chars sargs| | | | | |ws text post a'];
       cbn [ok_expr2]; try discriminate; intros H.
     - destruct cs as [|c [|? ?]]; try discriminate H. unfold ilen2. cbn [unparse_item2]. rewrite app_length. cbn. lia.
@@ -637,7 +675,7 @@ Section Sim.
   Lemma expr_run2 n : SimN2 n -> forall a sp aps acc pa fa,
     Std cx aps -> isize2 a <= S n -> ok_expr2 cx sp aps a fa = true ->
     skipn pa s = unparse_item2 a ++ fa ->
-    R (8 * ilen2 a - 1) (TExpr aps sp sp false true acc pa) = Ok (ONode (expr_node2 cx aps pa a)) (pa + ilen2 a)
+    R (U * ilen2 a - 1) (TExpr aps sp sp false true acc pa) = Ok (ONode (expr_node2 cx aps pa a)) (pa + ilen2 a)
     /\ (forall q, Std cx q -> forall e, impl_peek q s pa <> TokErr e).
   Proof.
     intros IH a.
@@ -658,16 +696,16 @@ Section Sim.
       { intros pre pp WP SKp. rewrite (impl_peek_dispatch _ s pp pre c fa WP SKp SPC).
         apply (dispatch_char2 cx _ (std_view_of cx _ SDe) s _ pre c fa PSC TSC). }
       cbn [expr_node2 item_ws2]. unfold ilen2. cbn [unparse_item2]. rewrite app_length. cbn [length].
-      replace (pa + length ws + 1) with (S (pa + length ws)) by lia.
-      replace (pa + (length ws + 1)) with (S (pa + length ws)) by lia.
+      replace (pa + length ws + 1) with (S (pa + length ws)) by ulia.
+      replace (pa + (length ws + 1)) with (S (pa + length ws)) by ulia.
       destruct ws as [|w ws'].
       + pose proof (TP [] pa eq_refl SK) as T. cbn [length] in T |- *. rewrite Nat.add_0_r in T |- *.
-        apply (rule_texpr_char s cx 6 aps sp sp true acc pa c T).
+        apply (lift 7); [apply (rule_texpr_char s cx 6 aps sp sp true acc pa c T) | discriminate | ulia].
       + cbn [is_nil] in AP. rewrite orb_false_r in AP. subst sp.
         pose proof (TP (w :: ws') pa WA SK) as T1.
         pose proof (TP [] (pa + length (w :: ws')) eq_refl (skipn_shift _ _ _ _ SK)) as T2.
         cbn [length] in T2. rewrite Nat.add_0_r in T2.
-        replace (8 * (length (w :: ws') + 1) - 1) with (S (S (8 * (length (w :: ws') + 1) - 3))) by (cbn [length]; lia).
+        replace (U * (length (w :: ws') + 1) - 1) with (S (S (U * (length (w :: ws') + 1) - 3))) by (cbn [length]; ulia).
         rewrite (rule_texpr_skipws s cx _ aps true true acc pa TkChar [c] _ w ws' [] (or_intror (or_introl eq_refl)) T1).
         apply (rule_texpr_char s cx _ aps true true true _ _ c T2).
     - (* a braced group *)
@@ -681,7 +719,7 @@ Section Sim.
       split; [|intros q SQ; apply (peek_no_err q pa ws 123%N _ SQ WA space_123 eq_refl SK')].
       set (q0 := pa + length ws).
       pose proof (skipn_shift _ _ _ _ SK') as SK0. fold q0 in SK0.
-      pose proof (grp_run2 n IH aps q0 ws b tr fa SDa ltac:(lia) W OKB SK0) as G.
+      pose proof (grp_run2 n IH aps q0 ws b tr fa SDa ltac:(ulia) W OKB SK0) as G.
       assert (TP : forall pre pp, ws_ok pre = true -> skipn pp s = pre ++ 123%N :: unparse_items2 b ++ tr ++ 125%N :: fa ->
                    impl_peek (sub_context aps [UEnEnvs false]) s pp
                    = TokOk (mk TkBraceOpen [123%N] (pp + length pre) (S (pp + length pre)) pre [])).
@@ -689,22 +727,22 @@ Section Sim.
         apply (dispatch_open cx _ (std_view_of cx _ SDe)). }
       cbn [expr_node2 item_ws2]. fold q0.
       replace (pa + ilen2 (Grp2 ws b tr)) with (q0 + 1 + length (unparse_items2 b) + length tr + 1)
-        by (rewrite ilen_grp2; unfold q0; lia).
+        by (rewrite ilen_grp2; unfold q0; ulia).
       rewrite ilen_grp2.
       pose proof (TP [] q0 eq_refl SK0) as T2. cbn [length] in T2. rewrite Nat.add_0_r in T2.
       destruct ws as [|w ws'].
       + unfold q0 in *. cbn [length] in *. rewrite Nat.add_0_r in *.
-        replace (8 * (0 + 1 + length (unparse_items2 b) + length tr + 1) - 1)
-          with (S (8 * (0 + 1 + length (unparse_items2 b) + length tr + 1) - 2)) by lia.
+        replace (U * (0 + 1 + length (unparse_items2 b) + length tr + 1) - 1)
+          with (S (U * (0 + 1 + length (unparse_items2 b) + length tr + 1) - 2)) by ulia.
         apply (rule_texpr_grpA s cx _ aps sp sp true acc pa _ _ T2).
-        apply (lift _ _ _ _ G); [discriminate|lia].
+        apply (lift _ _ _ _ G); [discriminate|ulia].
       + cbn [is_nil] in AP. rewrite orb_false_r in AP. subst sp.
         pose proof (TP (w :: ws') pa WA SK') as T1. fold q0 in T1.
-        replace (8 * (length (w :: ws') + 1 + length (unparse_items2 b) + length tr + 1) - 1)
-          with (S (S (8 * (length (w :: ws') + 1 + length (unparse_items2 b) + length tr + 1) - 3))) by (cbn [length]; lia).
+        replace (U * (length (w :: ws') + 1 + length (unparse_items2 b) + length tr + 1) - 1)
+          with (S (S (U * (length (w :: ws') + 1 + length (unparse_items2 b) + length tr + 1) - 3))) by (cbn [length]; ulia).
         rewrite (rule_texpr_skipws s cx _ aps true true acc pa TkBraceOpen [123%N] _ w ws' [] (or_introl eq_refl) T1).
         fold q0. apply (rule_texpr_grpA s cx _ aps true true true _ q0 _ _ T2).
-        apply (lift _ _ _ _ G); [discriminate|cbn [length]; lia].
+        apply (lift _ _ _ _ G); [discriminate|cbn [length]; ulia].
     - (* a control sequence *)
       destruct margs; try discriminate.
       apply andb_true_iff in OKA. destruct OKA as [OKA FO].
@@ -718,12 +756,12 @@ Section Sim.
         rewrite <- !app_assoc in SK. exact SK. }
       split; [|intros q SQ e; rewrite (mac_tok2 q pa ws name post fa SQ WA Wp NM FO SK'); discriminate].
       pose proof (mac_tok2 _ pa ws name post fa SDe WA Wp NM FO SK') as T.
-      assert (NL : 1 <= length name) by (destruct name; [discriminate|cbn; lia]).
+      assert (NL : 1 <= length name) by (destruct name; [discriminate|cbn; ulia]).
       cbn [expr_node2 item_ws2]. rewrite ilen_mac2. cbn [unparse_items2 flat_map length].
-      replace (8 * (length ws + 1 + length name + length post + 0) - 1)
-        with (S (8 * (length ws + 1 + length name + length post + 0) - 2)) by lia.
+      replace (U * (length ws + 1 + length name + length post + 0) - 1)
+        with (S (U * (length ws + 1 + length name + length post + 0) - 2)) by ulia.
       rewrite (rule_texpr_macroA s cx _ aps sp sp true acc pa name _ _ ws post msp T NB NE GM).
-      f_equal. lia.
+      f_equal. ulia.
     - (* a specials sequence *)
       destruct chars as [|c cr]; try discriminate. destruct sargs; try discriminate.
       apply andb_true_iff in OKA. destruct OKA as [OKA TS].
@@ -739,10 +777,10 @@ Section Sim.
       { rewrite (impl_peek_dispatch _ s pa ws c (cr ++ fa) WA SK' SPC).
         apply (dispatch_specials cx _ (std_view_of cx _ SDe) s _ ws c cr fa PS TS'). }
       cbn [expr_node2 item_ws2]. rewrite ilen_spc2. cbn [unparse_items2 flat_map].
-      replace (8 * (length ws + length (c :: cr) + length (@nil N)) - 1)
-        with (S (8 * (length ws + length (c :: cr) + length (@nil N)) - 2)) by (cbn [length]; lia).
+      replace (U * (length ws + length (c :: cr) + length (@nil N)) - 1)
+        with (S (U * (length ws + length (c :: cr) + length (@nil N)) - 2)) by (cbn [length]; ulia).
       rewrite (rule_texpr_spcA s cx _ aps sp sp true acc pa (c :: cr) _ _ ws T).
-      f_equal. cbn [length]. lia.
+      f_equal. cbn [length]. ulia.
     - (* a comment in front of the argument *)
       apply andb_true_iff in OKA. destruct OKA as [OKA OKR].
       apply andb_true_iff in OKA. destruct OKA as [OKA FO]. apply negb_true_iff in FO.
@@ -775,22 +813,22 @@ Section Sim.
       pose proof (TP [] q0 eq_refl SK0) as T2. cbn [length] in T2. rewrite Nat.add_0_r in T2. fold pe in T2.
       pose proof (ok_expr_len true aps a' fa OKR) as LA.
       cbn [expr_node2 item_ws2]. fold q0. fold pe. rewrite ilen_pre2.
-      replace (pa + (length ws + 1 + length text + length post + ilen2 a')) with (pe + ilen2 a') by (unfold pe, q0; lia).
+      replace (pa + (length ws + 1 + length text + length post + ilen2 a')) with (pe + ilen2 a') by (unfold pe, q0; ulia).
       destruct ws as [|w ws'].
       + unfold q0 in *. cbn [length] in *. rewrite Nat.add_0_r in *.
-        replace (8 * (0 + 1 + length text + length post + ilen2 a') - 1)
-          with (S (8 * (0 + 1 + length text + length post + ilen2 a') - 2)) by lia.
+        replace (U * (0 + 1 + length text + length post + ilen2 a') - 1)
+          with (S (U * (0 + 1 + length text + length post + ilen2 a') - 2)) by ulia.
         rewrite (rule_texpr_comment s cx _ aps true true acc pa text pe post T2).
-        destruct (IHa true aps (acc ++ [Some (NComment pa pe (ps_mode aps) text post)]) pe fa SDa ltac:(lia) OKR SKe) as [G _].
-        apply (lift _ _ _ _ G); [discriminate|lia].
+        destruct (IHa true aps (acc ++ [Some (NComment pa pe (ps_mode aps) text post)]) pe fa SDa ltac:(ulia) OKR SKe) as [G _].
+        apply (lift _ _ _ _ G); [discriminate|ulia].
       + pose proof (TP (w :: ws') pa WA SK') as T1. fold q0 in T1. fold pe in T1.
-        replace (8 * (length (w :: ws') + 1 + length text + length post + ilen2 a') - 1)
-          with (S (S (8 * (length (w :: ws') + 1 + length text + length post + ilen2 a') - 3))) by (cbn [length]; lia).
+        replace (U * (length (w :: ws') + 1 + length text + length post + ilen2 a') - 1)
+          with (S (S (U * (length (w :: ws') + 1 + length text + length post + ilen2 a') - 3))) by (cbn [length]; ulia).
         rewrite (rule_texpr_skipws s cx _ aps true true acc pa TkComment text _ w ws' post (or_intror (or_intror eq_refl)) T1).
         fold q0. rewrite (rule_texpr_comment s cx _ aps true true _ q0 text pe post T2).
         destruct (IHa true aps ((acc ++ [Some (mk_chars aps pa q0 (w :: ws'))]) ++ [Some (NComment q0 pe (ps_mode aps) text post)])
-                      pe fa SDa ltac:(lia) OKR SKe) as [G _].
-        apply (lift _ _ _ _ G); [discriminate|cbn [length]; lia].
+                      pe fa SDa ltac:(ulia) OKR SKe) as [G _].
+        apply (lift _ _ _ _ G); [discriminate|cbn [length]; ulia].
   Qed.
 
   Lemma arg_run2 n : SimN2 n -> forall ps spc a pa fa,
@@ -813,7 +851,7 @@ Section Sim.
       pose proof (ok_expr_len sp aps a fa OKE) as LN.
       pose proof (rule_tstdarg s cx _ aps sp pa _ _ G) as G3.
       unfold arg_fuel. replace (is_abs a) with false by (destruct a; try reflexivity; discriminate OKE).
-      replace (8 * ilen2 a) with (S (8 * ilen2 a - 1)) by lia.
+      replace (U * ilen2 a) with (S (U * ilen2 a - 1)) by ulia.
       rewrite G3. cbn [parse_content]. try reflexivity; destruct a; reflexivity.
     - (* a delimited argument *)
       destruct o as [|oc' [|? ?]]; try (destruct a; discriminate); try (destruct a; destruct opt; discriminate).
@@ -836,15 +874,15 @@ Section Sim.
         { unfold unparse_items2. cbn [unparse_item2] in SK. rewrite <- !app_assoc in SK. cbn [app] in SK.
           rewrite <- !app_assoc in SK. exact SK. }
         split; [|apply (peek_no_err ps pa ws oc _ SD WA SPO O92 SK')].
-        pose proof (brk_run2 n IH aps pa ws oc cc b tr fa opt sp SDa D ltac:(lia) WA AP W OKB SK') as G.
+        pose proof (brk_run2 n IH aps pa ws oc cc b tr fa opt sp SDa D ltac:(ulia) WA AP W OKB SK') as G.
         cbn [item_ws2].
         replace (pa + ilen2 (Brk2 ws oc cc b tr)) with (pa + length ws + 1 + length (unparse_items2 b) + length tr + 1)
-          by (rewrite ilen_brk2; lia).
+          by (rewrite ilen_brk2; ulia).
         unfold arg_fuel. cbn [is_abs]. rewrite ilen_brk2.
-        replace (8 * (length ws + 1 + length (unparse_items2 b) + length tr + 1))
-          with (S (8 * (length ws + 1 + length (unparse_items2 b) + length tr + 1) - 1)) by lia.
+        replace (U * (length ws + 1 + length (unparse_items2 b) + length tr + 1))
+          with (S (U * (length ws + 1 + length (unparse_items2 b) + length tr + 1) - 1)) by ulia.
         rewrite (rule_tstdarg_group s cx).
-        rewrite (lift _ _ _ _ G); [reflexivity|discriminate|lia].
+        rewrite (lift _ _ _ _ G); [reflexivity|discriminate|ulia].
       + (* absent *)
         destruct opt; [|discriminate].
         apply andb_true_iff in OKA. destruct OKA as [D AB].
@@ -873,10 +911,10 @@ Section Sim.
         { rewrite (impl_peek_dispatch aps s pa ws c fa WA SK SPC).
           apply (dispatch_char2 cx aps (std_view_of cx aps SDa) s _ ws c fa PSC TSC). }
         unfold arg_fuel. cbn [is_abs item_ws2]. unfold ilen2. cbn [unparse_item2]. rewrite app_length. cbn [length].
-        replace (8 * (length ws + 1)) with (S (S (8 * (length ws + 1) - 2))) by lia.
+        replace (U * (length ws + 1)) with (S (S (U * (length ws + 1) - 2))) by ulia.
         rewrite (rule_tstdarg_chars s cx), (rule_tchars_present s cx _ aps c sp full pa ws T AP).
         cbn [parse_content]. unfold chars_node. cbn [length].
-        replace (pa + (length ws + 1)) with (S (pa + length ws)) by lia. reflexivity.
+        replace (pa + (length ws + 1)) with (S (pa + length ws)) by ulia. reflexivity.
       + (* absent *)
         apply andb_true_iff in OKA. destruct OKA as [PC AB].
         destruct (plain_start_facts ch PC) as (SPC & _).
@@ -903,27 +941,37 @@ Section Sim.
       pose proof (rule_tverb s cx 0 aps d pa ws od cd text fa SK' (proj1 (ws_ok_split _ WA)) SPO VDE SCE) as G.
       unfold arg_fuel. cbn [is_abs item_ws2 node_of2]. unfold ilen2. cbn [unparse_item2]. rewrite app_length. cbn [length].
       rewrite app_length. cbn [length].
-      replace (8 * (length ws + S (length text + 1))) with (S (S (8 * (length ws + S (length text + 1)) - 2))) by lia.
+      replace (U * (length ws + S (length text + 1))) with (S (S (U * (length ws + S (length text + 1)) - 2))) by ulia.
       rewrite (rule_tstdarg_verb s cx).
-      rewrite (lift _ _ _ _ G); [|discriminate|lia].
+      rewrite (lift _ _ _ _ G); [|discriminate|ulia].
       cbn [parse_content].
-      replace (pa + length ws + 1 + length text + 1) with (S (S (pa + length ws) + length text)) by lia.
-      replace (pa + (length ws + S (length text + 1))) with (S (S (pa + length ws) + length text)) by lia.
+      replace (pa + length ws + 1 + length text + 1) with (S (S (pa + length ws) + length text)) by ulia.
+      replace (pa + (length ws + S (length text + 1))) with (S (S (pa + length ws) + length text)) by ulia.
       reflexivity.
   Qed.
 
   (** ** the arguments of a call *)
   Lemma ok_args_length2 ps args fol : forall l, ok_args2 cx ps args l fol = true -> length args = length l.
-  Proof.
+  Proof using Type. clear UM U8 U.
     induction args as [|a args IH]; intros [|spc l] H; try discriminate; [reflexivity|].
     cbn [ok_args2] in H. apply andb_true_iff in H. destruct H as [_ H]. cbn [length]. f_equal. apply IH. exact H.
   Qed.
 
   Lemma nabs_cons a r : nabs (a :: r) = (if is_abs a then 1 else 0) + nabs r.
-  Proof. unfold nabs. cbn [filter]. destruct a; reflexivity. Qed.
+  Proof using Type. clear UM U8 U. unfold nabs. cbn [filter]. destruct a; reflexivity. Qed.
+
+  (** the absent arguments of a call are paid out of the characters of the token that
+      starts it: there are at most [max_args cx] of them, and [max_args cx + 4 <= U] *)
+  Lemma slots_paid sp l ps args fol w : nargs sp <= max_args cx -> sp_args sp = APStd l ->
+    ok_args2 cx ps args l fol = true -> 1 <= w -> nabs args + 4 <= U * w.
+  Proof.
+    intros M SA OKA Hw. pose proof (nabs_le args) as NL.
+    rewrite (ok_args_length2 ps args fol l OKA) in NL. unfold nargs in M. rewrite SA in M.
+    assert (U * 1 <= U * w) by (apply Nat.mul_le_mono_l; exact Hw). lia.
+  Qed.
 
   Lemma ok_arg_len ps spc a fa : ok_arg2 cx ps spc a fa = true -> is_abs a = false -> 1 <= ilen2 a.
-  Proof.
+  Proof using Type. clear UM U8 U.
     unfold ok_arg2. intros H NA.
     destruct (a_kind spc) as [sp|o c opt sp|ch sp full|d].
     - apply (ok_expr_len sp (apply_adelta ps (a_delta spc)) a fa). destruct a; exact H.
@@ -939,40 +987,40 @@ Section Sim.
   Qed.
 
   Lemma lift_pc n n' t v p : parse_content false (R n t) = Ok v p -> n <= n' -> parse_content false (R n' t) = Ok v p.
-  Proof.
+  Proof using Type. clear UM U8 U.
     intros H L. destruct (R n t) eqn:E; try (rewrite (lift _ _ _ _ E) by (try discriminate; exact L); exact H).
   Qed.
 
   Lemma args_run2 n : SimN2 n -> forall args l ps acc pa fol,
     Std cx ps -> lsize2 args <= n -> ok_args2 cx ps args l fol = true ->
     skipn pa s = unparse_items2 args ++ fol ->
-    R (2 + nabs args + 8 * length (unparse_items2 args)) (TArgs ps l acc pa)
+    R (2 + nabs args + U * length (unparse_items2 args)) (TArgs ps l acc pa)
     = Ok (OArgs (Some ([], acc ++ fst (arg_nodes2 cx ps pa args l)))) (pa + length (unparse_items2 args)).
   Proof.
     intros IH. induction args as [|a args IHa]; intros [|spc l] ps acc pa fol SD SZ OKA SK; try discriminate.
-    - cbn [unparse_items2 flat_map length arg_nodes2 fst]. rewrite app_nil_r. replace (pa + 0) with pa by lia.
+    - cbn [unparse_items2 flat_map length arg_nodes2 fst]. rewrite app_nil_r. replace (pa + 0) with pa by ulia.
       reflexivity.
     - cbn [ok_args2] in OKA. apply andb_true_iff in OKA. destruct OKA as [OKa OKR].
       rewrite lsize_cons2 in SZ. pose proof (isize_pos2 a) as IP.
       assert (SK' : skipn pa s = unparse_item2 a ++ unparse_items2 args ++ fol).
       { unfold unparse_items2 in *. cbn [flat_map] in SK. rewrite <- app_assoc in SK. exact SK. }
-      destruct (arg_run2 n IH ps spc a pa _ SD ltac:(lia) OKa SK') as [A NE].
+      destruct (arg_run2 n IH ps spc a pa _ SD ltac:(ulia) OKa SK') as [A NE].
       set (nd := arg_node2 cx ps spc pa a) in *.
       set (pe := pa + ilen2 a) in *.
       assert (SKr : skipn pe s = unparse_items2 args ++ fol) by (apply skipn_shift in SK'; exact SK').
-      pose proof (IHa l ps (acc ++ [nd]) pe fol SD ltac:(lia) OKR SKr) as B.
+      pose proof (IHa l ps (acc ++ [nd]) pe fol SD ltac:(ulia) OKR SKr) as B.
       assert (L : length (unparse_items2 (a :: args)) = ilen2 a + length (unparse_items2 args)).
       { unfold unparse_items2, ilen2. cbn [flat_map]. rewrite app_length. reflexivity. }
-      set (N0 := 1 + nabs (a :: args) + 8 * length (unparse_items2 (a :: args))).
-      replace (2 + nabs (a :: args) + 8 * length (unparse_items2 (a :: args))) with (S N0) by (unfold N0; lia).
-      assert (LA : arg_fuel a <= N0 /\ 2 + nabs args + 8 * length (unparse_items2 args) <= N0).
-      { unfold N0, arg_fuel. rewrite nabs_cons, L. destruct (is_abs a) eqn:AB; [lia|].
-        pose proof (ok_arg_len ps spc a _ OKa AB). lia. }
+      set (N0 := 1 + nabs (a :: args) + U * length (unparse_items2 (a :: args))).
+      replace (2 + nabs (a :: args) + U * length (unparse_items2 (a :: args))) with (S N0) by (unfold N0; ulia).
+      assert (LA : arg_fuel a <= N0 /\ 2 + nabs args + U * length (unparse_items2 args) <= N0).
+      { unfold N0, arg_fuel. rewrite nabs_cons, L. destruct (is_abs a) eqn:AB; [ulia|].
+        pose proof (ok_arg_len ps spc a _ OKa AB). ulia. }
       apply (rule_targs_cons' s cx N0 ps spc l acc pa nd pe _ NE).
       + apply (lift_pc _ _ _ _ _ A). tauto.
       + rewrite (lift _ _ _ _ B); [|discriminate|tauto].
         cbn [arg_nodes2 fst snd]. fold nd. fold pe. rewrite <- app_assoc. cbn [app].
-        rewrite L. f_equal. unfold pe. lia.
+        rewrite L. f_equal. unfold pe. ulia.
   Qed.
 
   (** ** one item *)
@@ -981,7 +1029,7 @@ Section Sim.
     ok_item2 cx ps ex i fol = true ->
     skipn pos s = unparse_item2 i ++ fol ->
     R k (TCollect cps o (absorb_item2 cx ps pos st i) (pos + ilen2 i)) = r ->
-    R (k + 8 * ilen2 i) (TCollect cps o st pos) = r.
+    R (k + U * ilen2 i) (TCollect cps o st pos) = r.
   Proof.
     intros IH i ex cps ps o st pos fol k r SZ F OK NR OKI SK H.
     pose proof F as [SD _]. pose proof (std_view_of cx ps SD) as V.
@@ -1012,9 +1060,9 @@ Section Sim.
             apply (dispatch_comment_par cx ps V s _ ws text w' rest' SK0 NT Ww HS CN). }
         cbn [absorb_item2 item_ws2 node_of2] in H. rewrite ilen_cmt2 in H |- *. cbn [length] in H |- *.
         rewrite !Nat.add_0_r in H.
-        apply (lift (S k)); [|exact NR|lia].
+        apply (lift (S k)); [|exact NR|ulia].
         apply (rule_commentF s cx k cps ps o st pos ws text _ [] r OK T).
-        replace (pos + (length ws + 1 + length text)) with (pos + length ws + 1 + length text) in H by lia. exact H.
+        replace (pos + (length ws + 1 + length text)) with (pos + length ws + 1 + length text) in H by ulia. exact H.
       + (* ... that ends with a newline *)
         assert (C10 : c0 = 10%N).
         { destruct c0 as [|q]; try discriminate. repeat (destruct q as [q|q|]; try discriminate). reflexivity. }
@@ -1031,10 +1079,10 @@ Section Sim.
           rewrite (impl_peek_dispatch ps s pos ws 37%N _ W SK' space_37).
           apply (dispatch_comment cx ps V s _ ws text post fol SK0 NT Wp EW). apply otest_hd_not. exact FO. }
         cbn [absorb_item2 item_ws2 node_of2] in H. rewrite ilen_cmt2 in H |- *.
-        apply (lift (S k)); [|exact NR|lia].
+        apply (lift (S k)); [|exact NR|ulia].
         apply (rule_commentF s cx k cps ps o st pos ws text _ post r OK T).
         replace (pos + (length ws + 1 + length text + length post))
-          with (pos + length ws + 1 + length text + length post) in H by lia. exact H.
+          with (pos + length ws + 1 + length text + length post) in H by ulia. exact H.
     - (* paragraph break *)
       cbn [ok_item2] in OKI. apply andb_true_iff in OKI. destruct OKI as [OKI PS].
       apply andb_true_iff in OKI. destruct OKI as [OKI NI].
@@ -1057,15 +1105,15 @@ Section Sim.
         - rewrite forallb_app. cbn [forallb]. rewrite forallb_app. cbn [forallb]. rewrite W, WM, WI, space_10. reflexivity.
         - exact HF.
         - left. apply Nat.leb_le. rewrite count_c_app. cbn [count_c]. rewrite count_c_app. cbn [count_c].
-          rewrite N.eqb_refl. lia. }
+          rewrite N.eqb_refl. ulia. }
       rewrite <- TF in T.
       rewrite ilen_par2 in H |- *.
-      apply (lift (S (k + 2))); [|exact NR|lia].
+      apply (lift (S (k + 2))); [|exact NR|ulia].
       eapply (rule_callF s cx (k + 2) cps ps o st pos ws TkSpecials [10;10]%N _ [] sp _ _ r OK
                 (or_intror (or_intror (conj eq_refl GS))) T).
-      + replace (k + 2) with (S (S k)) by lia. apply rule_tcall_specials. exact SA.
-      + apply (lift _ (k + 2)) in H; [|exact NR|lia].
-        replace (pos + (length ws + 1 + length mid + 1)) with (pos + length ws + 1 + length mid + 1) in H by lia.
+      + replace (k + 2) with (S (S k)) by ulia. apply rule_tcall_specials. exact SA.
+      + apply (lift _ (k + 2)) in H; [|exact NR|ulia].
+        replace (pos + (length ws + 1 + length mid + 1)) with (pos + length ws + 1 + length mid + 1) in H by ulia.
         exact H.
     - (* environment *)
       destruct (get_env_spec cx name) as [sp|] eqn:GS;
@@ -1075,13 +1123,14 @@ Section Sim.
       rewrite (ok_item_env2 cx ps ex ws bws name args b tr ews fol sp l GS SA) in OKI.
       apply andb_true_iff in OKI. destruct OKI as [OKI OKA].
       apply andb_true_iff in OKA. destruct OKA as [OKA OKB].
-      apply andb_true_iff in OKA. destruct OKA as [OKA SL].
       apply andb_true_iff in OKI. destruct OKI as [OKI EN].
       apply andb_true_iff in OKI. destruct OKI as [OKI NM].
       apply andb_true_iff in OKI. destruct OKI as [OKI Wt].
       apply andb_true_iff in OKI. destruct OKI as [OKI WE].
       apply andb_true_iff in OKI. destruct OKI as [W WB].
-      unfold slots_ok in SL. apply Nat.leb_le in SL.
+      assert (SL : nabs args + 4 <= U * length (begin_str bws name)).
+      { apply (slots_paid sp l ps args _ _ (ParserTermDefs.env_spec_le cx name sp GS) SA OKA).
+        rewrite len_begin_str. lia. }
       cbn [isize2] in SZ. fold (lsize2 args) in SZ. fold (lsize2 b) in SZ.
       set (bps := env_body_state ps sp) in *.
       set (p0 := pos + length ws).
@@ -1099,32 +1148,32 @@ Section Sim.
       { rewrite (frame_peek1 cx ex cps ps s pos ws 92%N _ F SK'' W space_92 (frame_ex_special cx ex cps ps 92%N F eq_refl)).
         rewrite (impl_peek_dispatch ps s pos ws 92%N _ W SK'' space_92). fold p0.
         rewrite (dispatch_env cx ps V s p0 ws true bws name _ (skipn_shift _ _ _ _ SK'') EN WB NM).
-        unfold pa. rewrite len_begin_str. cbn [env_tok env_kw kw_begin length]. f_equal. unfold Tokenizer.mk. f_equal. lia. }
-      pose proof (args_run2 n IH args l ps [] pa _ SD ltac:(lia) OKA SKa) as A. cbn [app] in A.
+        unfold pa. rewrite len_begin_str. cbn [env_tok env_kw kw_begin length]. f_equal. unfold Tokenizer.mk. f_equal. ulia. }
+      pose proof (args_run2 n IH args l ps [] pa _ SD ltac:(ulia) OKA SKa) as A. cbn [app] in A.
       set (pb := pa + length (unparse_items2 args)) in *.
       pose proof (skipn_shift _ _ _ _ SKa) as SKb. fold pb in SKb.
       assert (SDb : Std cx bps) by (apply std_env_body; exact SD).
       assert (ENb : f_en_envs (ps_f bps) = true) by (unfold bps; rewrite en_envs_env_body; exact EN).
-      pose proof (env_body_run2 n IH bps pb b tr ews name fol SDb ENb ltac:(lia) Wt WE NM OKB SKb) as B.
-      set (N0 := k + 5 + nabs args + 8 * length (unparse_items2 args) + 8 * length (unparse_items2 b)).
-      apply (lift _ N0) in A; [|discriminate|unfold N0; lia].
-      apply (lift _ N0) in B; [|discriminate|unfold N0; lia].
+      pose proof (env_body_run2 n IH bps pb b tr ews name fol SDb ENb ltac:(ulia) Wt WE NM OKB SKb) as B.
+      set (N0 := k + 5 + nabs args + U * length (unparse_items2 args) + U * length (unparse_items2 b)).
+      apply (lift _ N0) in A; [|discriminate|unfold N0; ulia].
+      apply (lift _ N0) in B; [|discriminate|unfold N0; ulia].
       pose proof (rule_tcall_env s cx N0 ps name p0 pa sp l _ _ _ _ SA A B) as C.
       cbn [absorb_item2 item_ws2] in H. fold p0 in H.
       rewrite (node_of_env2 cx ps p0 ws bws name args b tr ews sp l GS SA) in H. cbn zeta in H. fold pa bps in H.
       rewrite (arg_nodes_pos2 cx ps args pa l (ok_args_length2 ps args _ l OKA)) in H. fold pb in H.
       rewrite absorb_pos2 in H.
       pose proof (len_begin_str bws name) as LB. pose proof (len_end_str ews name) as LE.
-      apply (lift (S (S N0))); [|exact NR|rewrite ilen_env2; unfold N0; lia].
+      apply (lift (S (S N0))); [|exact NR|rewrite ilen_env2; unfold N0; ulia].
       eapply (rule_callF s cx (S N0) cps ps o st pos ws TkBeginEnv name pa [] sp _ _ r OK
                 (or_intror (or_introl (conj eq_refl GS))) T).
       + exact C.
-      + apply (lift _ (S N0)) in H; [|exact NR|unfold N0; lia].
+      + apply (lift _ (S N0)) in H; [|exact NR|unfold N0; ulia].
         rewrite ilen_env2 in H.
         replace (pos + (length ws + length (begin_str bws name) + length (unparse_items2 args)
                         + length (unparse_items2 b) + length tr + length (end_str ews name)))
           with (pb + length (unparse_items2 b) + length tr + length (end_str ews name)) in H
-          by (unfold pb, pa, p0; lia).
+          by (unfold pb, pa, p0; ulia).
         exact H.
     - (* specials *)
       destruct (get_specials_spec cx chars) as [sp|] eqn:GS;
@@ -1133,11 +1182,11 @@ Section Sim.
         [|cbn [ok_item2] in OKI; rewrite GS, SA, andb_false_r in OKI; discriminate].
       rewrite (ok_item_spc2 cx ps ex ws chars args fol sp l GS SA) in OKI.
       apply andb_true_iff in OKI. destruct OKI as [OKI OKA].
-      apply andb_true_iff in OKA. destruct OKA as [OKA SL].
       apply andb_true_iff in OKI. destruct OKI as [OKI TS].
       apply andb_true_iff in OKI. destruct OKI as [W PS].
-      unfold slots_ok in SL. apply Nat.leb_le in SL.
       destruct chars as [|c cr]; [discriminate|].
+      assert (SL : nabs args + 4 <= U * length (c :: cr)).
+      { apply (slots_paid sp l ps args _ _ (ParserTermDefs.specials_spec_le cx _ sp GS) SA OKA). cbn [length]. lia. }
       apply andb_true_iff in PS. destruct PS as [PS PX]. apply negb_true_iff in PX.
       destruct (test_specials (map fst (cx_specials cx)) ((c :: cr) ++ unparse_items2 args ++ fol) None)
         as [sc|] eqn:TS'; [|discriminate].
@@ -1154,20 +1203,20 @@ Section Sim.
         rewrite (frame_peek1 cx ex cps ps s pos ws c (cr ++ unparse_items2 args ++ fol) F SK' W SP PX).
         rewrite (impl_peek_dispatch ps s pos ws c (cr ++ unparse_items2 args ++ fol) W SK' SP). fold p0.
         apply (dispatch_specials cx ps V s p0 ws c cr _ PS TS'). }
-      pose proof (args_run2 n IH args l ps [] pe fol SD ltac:(lia) OKA SKa) as A. cbn [app] in A.
+      pose proof (args_run2 n IH args l ps [] pe fol SD ltac:(ulia) OKA SKa) as A. cbn [app] in A.
       pose proof (rule_tcall_spc s cx _ ps (c :: cr) p0 pe sp l _ _ SA A) as C.
       cbn [absorb_item2 item_ws2] in H. fold p0 in H.
       rewrite (node_of_spc2 cx ps p0 ws (c :: cr) args sp l GS SA) in H. cbn zeta in H. fold pe in H.
       rewrite (arg_nodes_pos2 cx ps args pe l (ok_args_length2 ps args _ l OKA)) in H.
-      set (N0 := k + 3 + nabs args + 8 * length (unparse_items2 args)).
-      apply (lift (S N0)); [|exact NR|rewrite ilen_spc2; unfold N0; lia].
+      set (N0 := k + 3 + nabs args + U * length (unparse_items2 args)).
+      apply (lift (S N0)); [|exact NR|rewrite ilen_spc2; unfold N0; ulia].
       eapply (rule_callF s cx N0 cps ps o st pos ws TkSpecials (c :: cr) pe [] sp _ _ r OK
                 (or_intror (or_intror (conj eq_refl GS))) T).
-      + apply (lift _ N0) in C; [exact C|discriminate|unfold N0; lia].
-      + apply (lift _ N0) in H; [|exact NR|unfold N0; lia].
+      + apply (lift _ N0) in C; [exact C|discriminate|unfold N0; ulia].
+      + apply (lift _ N0) in H; [|exact NR|unfold N0; ulia].
         rewrite ilen_spc2 in H.
         replace (pos + (length ws + length (c :: cr) + length (unparse_items2 args)))
-          with (pe + length (unparse_items2 args)) in H by (unfold pe, p0; lia). exact H.
+          with (pe + length (unparse_items2 args)) in H by (unfold pe, p0; ulia). exact H.
     - (* the verbatim macro *)
       cbn [ok_item2] in OKI.
       apply andb_true_iff in OKI. destruct OKI as [OKI NT]. apply negb_true_iff in NT.
@@ -1195,17 +1244,17 @@ Section Sim.
       pose proof (rule_tlegacy_verb s cx 0 ps pe dc text fol SKe SPD NT) as L.
       pose proof (rule_tcall_legacy_macro s cx 1 ps name p0 pe post sp LVerbMacro _ _ SA L) as C.
       cbn [absorb_item2 item_ws2 node_of2] in H. fold p0 in H.
-      replace (p0 + 1 + length name + length post + 1) with (S pe) in H by (unfold pe; lia).
-      replace (S pe + length text + 1) with (S (S pe + length text)) in H by lia.
+      replace (p0 + 1 + length name + length post + 1) with (S pe) in H by (unfold pe; ulia).
+      replace (S pe + length text + 1) with (S (S pe + length text)) in H by ulia.
       set (N0 := k + 2).
-      apply (lift (S N0)); [|exact NR|rewrite ilen_vrb2; unfold N0; lia].
+      apply (lift (S N0)); [|exact NR|rewrite ilen_vrb2; unfold N0; ulia].
       eapply (rule_callF s cx N0 cps ps o st pos ws TkMacro name pe post sp _ _ r OK
                 (or_introl (conj eq_refl GS)) T).
-      + apply (lift _ N0) in C; [exact C|discriminate|unfold N0; lia].
-      + apply (lift _ N0) in H; [|exact NR|unfold N0; lia].
+      + apply (lift _ N0) in C; [exact C|discriminate|unfold N0; ulia].
+      + apply (lift _ N0) in H; [|exact NR|unfold N0; ulia].
         rewrite ilen_vrb2 in H.
         replace (pos + (length ws + 1 + length name + length post + 1 + length text + 1))
-          with (S (S pe + length text)) in H by (unfold pe, p0; lia). exact H.
+          with (S (S pe + length text)) in H by (unfold pe, p0; ulia). exact H.
     - (* a verbatim environment *)
       destruct (get_env_spec cx name) as [sp|] eqn:GS;
         [|cbn [ok_item2] in OKI; rewrite GS, andb_false_r in OKI; discriminate].
@@ -1240,11 +1289,11 @@ Section Sim.
       { rewrite (frame_peek1 cx ex cps ps s pos ws 92%N _ F SK'' W space_92 (frame_ex_special cx ex cps ps 92%N F eq_refl)).
         rewrite (impl_peek_dispatch ps s pos ws 92%N _ W SK'' space_92). fold p0.
         rewrite (dispatch_env cx ps V s p0 ws true bws name _ (skipn_shift _ _ _ _ SK'') EN WB NM).
-        unfold pa. rewrite len_begin_str. cbn [env_tok env_kw kw_begin length]. f_equal. unfold Tokenizer.mk. f_equal. lia. }
+        unfold pa. rewrite len_begin_str. cbn [env_tok env_kw kw_begin length]. f_equal. unfold Tokenizer.mk. f_equal. ulia. }
       set (pt := pa + length (unparse_items2 oarg)).
       pose proof (skipn_shift _ _ _ _ SKa) as SKt. fold pt in SKt.
       set (on := match oarg with [a] => ([node_of2 cx ps pa a], pa + ilen2 a) | _ => ([], pa) end).
-      set (N1 := 4 + 8 * length (unparse_items2 oarg)).
+      set (N1 := 4 + U * length (unparse_items2 oarg)).
       (* the optional argument *)
       assert (OPT : snd on = pt /\
                 (if optarg
@@ -1258,7 +1307,7 @@ Section Sim.
       { destruct oarg as [|a [|a2 oarg']];
           [| |destruct a as [| | | | | | | | | |[|? ?] ? ? ? ?| | |]; discriminate OO].
         - destruct optarg; [discriminate|]. unfold on, pt. cbn [unparse_items2 flat_map length fst snd].
-          repeat split; lia.
+          repeat split; ulia.
         - destruct a as [| | | | | | | | | |bw oc cc b tr| | |]; try discriminate OO.
           + (* written *)
             destruct bw; [|discriminate].
@@ -1271,22 +1320,22 @@ Section Sim.
             assert (SKb : skipn pa s = [] ++ 91%N :: unparse_items2 b ++ tr ++ 93%N :: FB).
             { rewrite SKa. unfold unparse_items2. cbn [flat_map unparse_item2 app]. rewrite ?app_nil_r.
               rewrite <- ?app_assoc. cbn [app]. rewrite <- ?app_assoc. cbn [app]. rewrite <- ?app_assoc. reflexivity. }
-            pose proof (brk_run2 n IH ps pa [] 91%N 93%N b tr FB true false SD eq_refl ltac:(lia) eq_refl eq_refl Wt OKB SKb) as G.
+            pose proof (brk_run2 n IH ps pa [] 91%N 93%N b tr FB true false SD eq_refl ltac:(ulia) eq_refl eq_refl Wt OKB SKb) as G.
             cbn [length] in G. rewrite Nat.add_0_r in G.
             assert (LB : length (unparse_items2 [Brk2 [] 91%N 93%N b tr]) = 1 + length (unparse_items2 b) + length tr + 1).
             { replace (unparse_items2 [Brk2 [] 91%N 93%N b tr]) with (unparse_item2 (Brk2 [] 91%N 93%N b tr))
                 by (unfold unparse_items2; cbn [flat_map]; rewrite app_nil_r; reflexivity).
-              fold (ilen2 (Brk2 [] 91%N 93%N b tr)). rewrite ilen_brk2. cbn [length]. lia. }
-            split; [unfold on, pt; cbn [snd]; rewrite LB, ilen_brk2; cbn [length]; lia|].
+              fold (ilen2 (Brk2 [] 91%N 93%N b tr)). rewrite ilen_brk2. cbn [length]. ulia. }
+            split; [unfold on, pt; cbn [snd]; rewrite LB, ilen_brk2; cbn [length]; ulia|].
             rewrite (nth_error_of_skipn _ _ _ _ SKb). change (is_space 91) with false. cbv iota.
             exists (node_of2 cx ps pa (Brk2 [] 91%N 93%N b tr)). split; [|split; reflexivity].
-            rewrite (lift _ N1 _ _ G); [|discriminate|unfold N1; rewrite LB; lia].
-            cbn [parse_content]. f_equal. unfold pt. rewrite LB. lia.
+            rewrite (lift _ N1 _ _ G); [|discriminate|unfold N1; rewrite LB; ulia].
+            cbn [parse_content]. f_equal. unfold pt. rewrite LB. ulia.
           + (* absent *)
             apply andb_true_iff in OO. destruct OO as [OPTT AB]. rewrite OPTT.
-            assert (PT : pt = pa) by (unfold pt; cbn [unparse_items2 flat_map unparse_item2 app length]; lia).
+            assert (PT : pt = pa) by (unfold pt; cbn [unparse_items2 flat_map unparse_item2 app length]; ulia).
             assert (SKb : skipn pa s = FB) by (rewrite SKa; reflexivity).
-            split; [unfold on; cbn [snd]; unfold ilen2; cbn [unparse_item2 length]; lia|].
+            split; [unfold on; cbn [snd]; unfold ilen2; cbn [unparse_item2 length]; ulia|].
             assert (NEF : exists c r, FB = c :: r).
             { unfold FB, endc, end_str. destruct text; cbn [app]; eauto. }
             destruct NEF as (c & r0 & EFB). rewrite EFB in SKb. rewrite (nth_error_of_skipn _ _ _ _ SKb).
@@ -1302,7 +1351,7 @@ Section Sim.
                 rewrite HD in AB. cbn [otest] in AB. congruence. }
               rewrite <- EFB in SKb.
               pose proof (peek_absent_brk cx ps 91%N 93%N s pa FB SD eq_refl SKb AB') as PA.
-              assert (N1E : N1 = 4) by (unfold N1; cbn [unparse_items2 flat_map unparse_item2 app length]; lia).
+              assert (N1E : N1 = 4) by (unfold N1; cbn [unparse_items2 flat_map unparse_item2 app length]; ulia).
               rewrite N1E.
               rewrite (rule_tgroup_absent s cx 3 ps 91%N 93%N false pa PA). rewrite PT. reflexivity. }
       destruct OPT as [ON OPT].
@@ -1310,16 +1359,16 @@ Section Sim.
       set (e := pt + length text).
       assert (PTL : pt <= length s).
       { destruct (Nat.le_gt_cases pt (length s)) as [L|L]; [exact L|].
-        rewrite skipn_all2 in SKt by lia. unfold FB, endc, end_str in SKt. destruct text; discriminate SKt. }
+        rewrite skipn_all2 in SKt by ulia. unfold FB, endc, end_str in SKt. destruct text; discriminate SKt. }
       assert (FE : sfind s ([92;101;110;100;123]%N ++ name ++ [125%N]) pt = Some e).
-      { unfold sfind, find_from. assert (L : Nat.ltb (length s) pt = false) by (apply Nat.ltb_ge; lia).
+      { unfold sfind, find_from. assert (L : Nat.ltb (length s) pt = false) by (apply Nat.ltb_ge; ulia).
         rewrite L, SKt. change ([92;101;110;100;123]%N ++ name ++ [125%N]) with endc. rewrite FSE. reflexivity. }
       pose proof (rule_tlegacy_venv s cx N1 ps name optarg pa (if optarg then [[91%N]] else []) (fst on) pt e) as L.
       assert (LA : R (S N1) (TLegacyArgs ps (LVerbEnv name optarg) pa)
                    = Ok (OArgs (Some ((if optarg then [[91%N]] else []) ++ [[123%N]],
                                       fst on ++ [Some (mk_chars ps pt e text)]))) e).
       { assert (SL : slice s pt e = text).
-        { unfold slice, e. rewrite SKt. replace (pt + length text - pt) with (length text) by lia.
+        { unfold slice, e. rewrite SKt. replace (pt + length text - pt) with (length text) by ulia.
           unfold FB. apply firstn_len_app. }
         rewrite <- SL. apply L; [|exact FE]. destruct optarg; [|exact OPT].
         destruct (nth_error s pa) as [c|]; [|exact OPT]. destruct (is_space c); exact OPT. }
@@ -1328,24 +1377,24 @@ Section Sim.
       assert (ENb : f_en_envs (ps_f bps) = true) by (unfold bps; rewrite en_envs_env_body; exact EN).
       assert (SKe : skipn e s = unparse_items2 [] ++ [] ++ end_str [] name ++ fol).
       { pose proof (skipn_shift _ _ _ _ SKt) as X. fold e in X. exact X. }
-      pose proof (env_body_run2 n IH bps e [] [] [] name fol SDb ENb ltac:(cbn; lia) eq_refl eq_refl NM eq_refl SKe) as B.
+      pose proof (env_body_run2 n IH bps e [] [] [] name fol SDb ENb ltac:(cbn; ulia) eq_refl eq_refl NM eq_refl SKe) as B.
       cbn [unparse_items2 flat_map length absorb2 fst] in B. rewrite !Nat.add_0_r in B. cbn [Nat.add] in B.
-      set (N0 := k + 6 + 8 * length (unparse_items2 oarg)).
-      apply (lift _ N0) in LA; [|discriminate|unfold N0, N1; lia].
-      apply (lift _ N0) in B; [|discriminate|unfold N0; lia].
+      set (N0 := k + 6 + U * length (unparse_items2 oarg)).
+      apply (lift _ N0) in LA; [|discriminate|unfold N0, N1; ulia].
+      apply (lift _ N0) in B; [|discriminate|unfold N0; ulia].
       pose proof (rule_tcall_legacy_env s cx N0 ps name p0 pa sp _ _ _ _ _ SA LA B) as C.
       cbn [absorb_item2 item_ws2] in H. fold p0 in H.
       rewrite (node_of_venv2 cx ps p0 ws bws name oarg text sp name optarg GS SA) in H. cbn zeta in H.
       fold pa on bps in H. rewrite ON in H. fold e in H. fold endc in H.
       pose proof (len_begin_str bws name) as LB. pose proof (len_end_str [] name) as LE. fold endc in LE.
-      apply (lift (S (S N0))); [|exact NR|rewrite ilen_venv2; fold endc; unfold N0; lia].
+      apply (lift (S (S N0))); [|exact NR|rewrite ilen_venv2; fold endc; unfold N0; ulia].
       eapply (rule_callF s cx (S N0) cps ps o st pos ws TkBeginEnv name pa [] sp _ _ r OK
                 (or_intror (or_introl (conj eq_refl GS))) T).
       + exact C.
-      + apply (lift _ (S N0)) in H; [|exact NR|unfold N0; lia].
+      + apply (lift _ (S N0)) in H; [|exact NR|unfold N0; ulia].
         rewrite ilen_venv2 in H. fold endc in H.
         replace (pos + (length ws + length (begin_str bws name) + length (unparse_items2 oarg) + length text + length endc))
-          with (e + length endc) in H by (unfold e, pt, pa, p0; lia).
+          with (e + length endc) in H by (unfold e, pt, pa, p0; ulia).
         exact H.
     - (* a delimited argument is not an item *) discriminate.
     - (* an absent argument is not an item *) discriminate.
@@ -1369,16 +1418,16 @@ Section Sim.
       { rewrite (frame_peek1 cx ex cps ps s pos ws 123%N _ F SK' W space_123 (frame_ex_special cx ex cps ps 123%N F eq_refl)).
         rewrite (impl_peek_dispatch ps s pos ws 123%N _ W SK' space_123). apply (dispatch_open cx ps V). }
       pose proof (skipn_shift _ _ _ _ SK') as SK0.
-      pose proof (grp_run2 n IH ps (pos + length ws) ws b tr fol SD ltac:(lia) Wt OKB SK0) as G.
+      pose proof (grp_run2 n IH ps (pos + length ws) ws b tr fol SD ltac:(ulia) Wt OKB SK0) as G.
       cbn [absorb_item2 item_ws2] in H.
-      set (N0 := k + 3 + 8 * length (unparse_items2 b)).
-      apply (lift (S N0)); [|exact NR|rewrite ilen_grp2; unfold N0; lia].
+      set (N0 := k + 3 + U * length (unparse_items2 b)).
+      apply (lift (S N0)); [|exact NR|rewrite ilen_grp2; unfold N0; ulia].
       eapply (rule_groupF s cx N0 cps ps o st pos ws _ _ r OK T).
-      + apply (lift _ N0) in G; [exact G|discriminate|unfold N0; lia].
-      + apply (lift _ N0) in H; [|exact NR|unfold N0; lia].
+      + apply (lift _ N0) in G; [exact G|discriminate|unfold N0; ulia].
+      + apply (lift _ N0) in H; [|exact NR|unfold N0; ulia].
         rewrite ilen_grp2 in H.
         replace (pos + length ws + 1 + length (unparse_items2 b) + length tr + 1)
-          with (pos + (length ws + 1 + length (unparse_items2 b) + length tr + 1)) by lia. exact H.
+          with (pos + (length ws + 1 + length (unparse_items2 b) + length tr + 1)) by ulia. exact H.
     - (* macro *)
       destruct (get_macro_spec cx name) as [sp|] eqn:GS;
         [|cbn [ok_item2] in OKI; rewrite GS, andb_false_r in OKI; discriminate].
@@ -1387,10 +1436,10 @@ Section Sim.
       rewrite (ok_item_mac2 cx ps ex ws name post args _ sp l GS SA) in OKI.
       apply andb_true_iff in OKI. destruct OKI as [OKI OKA].
       apply andb_true_iff in OKA. destruct OKA as [OKA FO].
-      apply andb_true_iff in OKA. destruct OKA as [OKA SL].
       apply andb_true_iff in OKI. destruct OKI as [OKI NM].
       apply andb_true_iff in OKI. destruct OKI as [W Wp].
-      unfold slots_ok in SL. apply Nat.leb_le in SL.
+      assert (SL : nabs args + 4 <= U * (1 + length name)).
+      { apply (slots_paid sp l ps args _ _ (ParserTermDefs.macro_spec_le cx name sp GS) SA OKA). lia. }
       cbn [isize2] in SZ. fold (lsize2 args) in SZ.
       set (p0 := pos + length ws).
       set (pe := p0 + 1 + length name + length post).
@@ -1406,21 +1455,21 @@ Section Sim.
           with ([92%N] ++ name ++ post ++ unparse_items2 args ++ fol) in SK0.
         apply skipn_shift in SK0. apply skipn_shift in SK0. apply skipn_shift in SK0.
         cbn [length] in SK0. exact SK0. }
-      pose proof (args_run2 n IH args l ps [] pe fol SD ltac:(lia) OKA SKa) as A. cbn [app] in A.
+      pose proof (args_run2 n IH args l ps [] pe fol SD ltac:(ulia) OKA SKa) as A. cbn [app] in A.
       pose proof (rule_tcall s cx _ ps name p0 pe post sp l _ _ SA A) as C.
       cbn [absorb_item2 item_ws2] in H. fold p0 in H.
       rewrite (node_of_mac2 cx ps p0 ws name post args sp l GS SA) in H. cbn zeta in H. fold pe in H.
       rewrite (arg_nodes_pos2 cx ps args pe l (ok_args_length2 ps args _ l OKA)) in H.
-      set (N0 := k + 3 + nabs args + 8 * length (unparse_items2 args)).
-      assert (NL : 1 <= length name) by (destruct name; [discriminate|cbn; lia]).
-      apply (lift (S N0)); [|exact NR|rewrite ilen_mac2; unfold N0; lia].
+      set (N0 := k + 3 + nabs args + U * length (unparse_items2 args)).
+      assert (NL : 1 <= length name) by (destruct name; [discriminate|cbn; ulia]).
+      apply (lift (S N0)); [|exact NR|rewrite ilen_mac2; unfold N0; ulia].
       eapply (rule_callF s cx N0 cps ps o st pos ws TkMacro name pe post sp _ _ r OK
                 (or_introl (conj eq_refl GS)) T).
-      + apply (lift _ N0) in C; [exact C|discriminate|unfold N0; lia].
-      + apply (lift _ N0) in H; [|exact NR|unfold N0; lia].
+      + apply (lift _ N0) in C; [exact C|discriminate|unfold N0; ulia].
+      + apply (lift _ N0) in H; [|exact NR|unfold N0; ulia].
         rewrite ilen_mac2 in H.
         replace (pos + (length ws + 1 + length name + length post + length (unparse_items2 args)))
-          with (pe + length (unparse_items2 args)) in H by (unfold pe, p0; lia). exact H.
+          with (pe + length (unparse_items2 args)) in H by (unfold pe, p0; ulia). exact H.
     - (* math *)
       rewrite ok_item_math2 in OKI. apply andb_true_iff in OKI. destruct OKI as [OKI DL].
       apply andb_true_iff in OKI. destruct OKI as [OKI OKB].
@@ -1446,19 +1495,19 @@ Section Sim.
           rewrite (impl_peek_dispatch ps s pos ws 92%N _ W SK' space_92). exact D.
         - rewrite (frame_peek1 cx ex cps ps s pos ws 36%N _ F SK' W space_36 (frame_ex_special cx ex cps ps 36%N F eq_refl)).
           rewrite (impl_peek_dispatch ps s pos ws 36%N _ W SK' space_36). exact D. }
-      pose proof (math_run2 n IH ps (pos + length ws) ws mk b tr fol SD M ltac:(lia) Wt OKB DL' SK0) as G.
+      pose proof (math_run2 n IH ps (pos + length ws) ws mk b tr fol SD M ltac:(ulia) Wt OKB DL' SK0) as G.
       rewrite node_of_math2 in G. cbn zeta in G.
       cbn [absorb_item2 item_ws2] in H. rewrite node_of_math2 in H. cbn zeta in H.
-      set (N0 := k + 3 + 8 * length (unparse_items2 b)).
+      set (N0 := k + 3 + U * length (unparse_items2 b)).
       assert (MC : f_in_math (ps_f cps) = false) by (rewrite (frame_in_math cx ex cps ps F); exact M).
-      apply (lift (S N0)); [|exact NR|rewrite ilen_math2; unfold N0; destruct mk; cbn [m_open length]; lia].
+      apply (lift (S N0)); [|exact NR|rewrite ilen_math2; unfold N0; destruct mk; cbn [m_open length]; ulia].
       eapply (rule_mathF s cx N0 cps ps o st pos ws mk _ _ r OK (frame_good cx ex cps ps F) MC T).
-      + apply (lift _ N0) in G; [exact G|discriminate|unfold N0; lia].
-      + apply (lift _ N0) in H; [|exact NR|unfold N0; lia].
+      + apply (lift _ N0) in G; [exact G|discriminate|unfold N0; ulia].
+      + apply (lift _ N0) in H; [|exact NR|unfold N0; ulia].
         rewrite ilen_math2 in H.
         replace (pos + length ws + length (m_open mk) + length (unparse_items2 b) + length tr + length (m_close mk))
           with (pos + (length ws + length (m_open mk) + length (unparse_items2 b) + length tr + length (m_close mk)))
-          by lia. exact H.
+          by ulia. exact H.
   Qed.
 
   (** ** the simulation *)
@@ -1466,10 +1515,10 @@ Section Sim.
   Proof.
     assert (NIL : forall cps ps o st pos k r,
               R k (TCollect cps o (fst (absorb2 cx ps pos st [])) (pos + length (unparse_items2 []))) = r ->
-              R (k + 8 * length (unparse_items2 [])) (TCollect cps o st pos) = r).
-    { intros cps ps o st pos k r H. cbn in H |- *. rewrite Nat.add_0_r in H |- *. exact H. }
+              R (k + U * length (unparse_items2 [])) (TCollect cps o st pos) = r).
+    { intros cps ps o st pos k r H. cbn in H |- *. rewrite Nat.add_0_r in H. rewrite Nat.mul_0_r, Nat.add_0_r. exact H. }
     induction n as [|n IH]; intros l SZ ex cps ps o st pos fol k r F OK NR OKL SK H.
-    - destruct l as [|i l]; [apply (NIL cps ps); exact H|]. rewrite lsize_cons2 in SZ. pose proof (isize_pos2 i). lia.
+    - destruct l as [|i l]; [apply (NIL cps ps); exact H|]. rewrite lsize_cons2 in SZ. pose proof (isize_pos2 i). ulia.
     - destruct l as [|i l]; [apply (NIL cps ps); exact H|]. rewrite lsize_cons2 in SZ. pose proof (isize_pos2 i) as IP.
       rewrite ok_items_cons2 in OKL. apply andb_true_iff in OKL. destruct OKL as [OKI OKL].
       assert (L : length (unparse_items2 (i :: l)) = ilen2 i + length (unparse_items2 l)).
@@ -1478,22 +1527,29 @@ Section Sim.
       { unfold unparse_items2 in *. cbn [flat_map] in SK. rewrite <- app_assoc in SK. exact SK. }
       pose proof (skipn_shift _ _ _ _ SK') as SKl. fold (ilen2 i) in SKl.
       rewrite absorb_cons2 in H. rewrite L in H |- *.
-      replace (pos + (ilen2 i + length (unparse_items2 l))) with (pos + ilen2 i + length (unparse_items2 l)) in H by lia.
-      pose proof (IH l ltac:(lia) ex cps ps o (absorb_item2 cx ps pos st i) (pos + ilen2 i) fol k r F OK NR OKL SKl H) as H2.
-      pose proof (item_sim2 n IH i ex cps ps o st pos (unparse_items2 l ++ fol) _ r ltac:(lia) F OK NR OKI SK' H2) as H3.
-      apply (lift _ _ _ _ H3 NR). lia.
+      replace (pos + (ilen2 i + length (unparse_items2 l))) with (pos + ilen2 i + length (unparse_items2 l)) in H by ulia.
+      pose proof (IH l ltac:(ulia) ex cps ps o (absorb_item2 cx ps pos st i) (pos + ilen2 i) fol k r F OK NR OKL SKl H) as H2.
+      pose proof (item_sim2 n IH i ex cps ps o st pos (unparse_items2 l ++ fol) _ r ltac:(ulia) F OK NR OKI SK' H2) as H3.
+      apply (lift _ _ _ _ H3 NR). ulia.
   Qed.
 End Sim.
 
+(** the model's own unit of fuel is such a [U] *)
+Lemma fuel_unit_ge8 cx : 8 <= fuel_unit cx.
+Proof. unfold fuel_unit. lia. Qed.
+Lemma fuel_unit_slots cx : max_args cx + 4 <= fuel_unit cx.
+Proof. unfold fuel_unit. lia. Qed.
+
 (** the simulation for the collectors whose children are parsed in their own state *)
-Corollary items_sim2_std s cx l ps o st pos fol k r :
+Corollary items_sim2_std s cx U l ps o st pos fol k r :
+  8 <= U -> max_args cx + 4 <= U ->
   Std cx ps -> opts_ok ps o -> r <> OutOfFuel ->
   ok_items2 cx ps [] l fol = true ->
   skipn pos s = unparse_items2 l ++ fol ->
   run s false cx k (TCollect ps o (fst (absorb2 cx ps pos st l)) (pos + length (unparse_items2 l))) = r ->
-  run s false cx (k + 8 * length (unparse_items2 l)) (TCollect ps o st pos) = r.
+  run s false cx (k + U * length (unparse_items2 l)) (TCollect ps o st pos) = r.
 Proof.
-  intros SD OK. apply (items_sim2 s cx (lsize2 l) l (le_n _) [] ps ps o st pos fol k r (frame_std cx ps SD)
+  intros U8 UM SD OK. apply (items_sim2 s cx U U8 UM (lsize2 l) l (le_n _) [] ps ps o st pos fol k r (frame_std cx ps SD)
                          (opts_ok_F ps o OK)).
 Qed.
 
@@ -1525,12 +1581,14 @@ Proof.
       apply skipn_shift in SKe'. exact SKe'. }
   assert (NR : Ok (OColl (eos_state ps (fst A) tr pe) None false true) (pe + length tr) <> OutOfFuel)
     by discriminate.
-  pose proof (items_sim2 s cx (lsize2 items) items (le_n _) [] ps ps top_opts cs_empty 0 tr 2 _ (frame_std cx ps SD)
+  pose proof (items_sim2 s cx (fuel_unit cx) (fuel_unit_ge8 cx) (fuel_unit_slots cx)
+                (lsize2 items) items (le_n _) [] ps ps top_opts cs_empty 0 tr 2 _ (frame_std cx ps SD)
                 (opts_ok_F ps _ (opts_ok_top ps)) NR OKL SK E) as S1.
   pose proof (rule_general_top s cx _ ps _ _ S1) as S2.
   assert (LS : length s = length (unparse_items2 items) + length tr) by (unfold s, unparse2; apply app_length).
   unfold parse_top. fold s ps.
-  rewrite (run_mono s false cx _ (parse_fuel s) _ _ S2 ltac:(discriminate)) by (unfold parse_fuel; lia).
+  rewrite (run_mono s false cx _ (parse_fuel s cx) _ _ S2 ltac:(discriminate))
+    by (unfold parse_fuel, fuel_base; rewrite LS, (Nat.mul_comm _ (fuel_unit cx)); lia).
   unfold doc_result2, tree_of2. cbn [parse_content d_items2 d_trail2 fst snd]. fold ps. fold A.
   assert (PA : snd A = pe) by (unfold A; rewrite absorb_pos2; reflexivity). rewrite PA.
   fold s. rewrite LS. reflexivity.
